@@ -708,6 +708,17 @@ func (g *Gen) addrOf(v ssa.Value, st *State) *Addr {
 	switch x := v.(type) {
 	case *ssa.Global:
 		return &Addr{rk: rGlobal, global: x, typ: x.Type().(*types.Pointer).Elem(), text: x.Name()}
+	case *ssa.Convert:
+		// *(*U)(unsafe.Pointer(&t)): an unsafe re-view of the same 8 bytes
+		if in, ok := x.X.(*ssa.Convert); ok {
+			if _, isPtr := in.X.Type().Underlying().(*types.Pointer); isPtr {
+				if tp, ok := x.Type().Underlying().(*types.Pointer); ok {
+					base := *g.addrOf(in.X, st)
+					base.reinterp = tp.Elem()
+					return &base
+				}
+			}
+		}
 	}
 	pt, ok := v.Type().Underlying().(*types.Pointer)
 	if !ok {
@@ -999,6 +1010,9 @@ func (g *Gen) execUnOp(x *ssa.UnOp, st *State) {
 		g.nilCheck(a, st, "load")
 		entryRead := g.isEntryRead(a, st)
 		v := g.loadAddr(a, st)
+		if a.reinterp != nil {
+			v = g.reinterpret(v, a.reinterp)
+		}
 		v.G = x.Type()
 		g.setVal(x, v)
 		r := g.vals[x]
@@ -1565,4 +1579,25 @@ func (g *Gen) sortedAllocs(m map[*ssa.Alloc]bool) []*ssa.Alloc {
 	}
 	sort.Slice(out, func(i, j int) bool { return g.allocOrder[out[i]] < g.allocOrder[out[j]] })
 	return out
+}
+
+// reinterpret: unsafe re-view of a 64-bit value (float64 <-> (u)int64), bit-exact.
+func (g *Gen) reinterpret(v Val, to types.Type) Val {
+	ts := g.sortOf(to)
+	switch {
+	case v.S.K == KF64 && (ts.K == KBV && ts.W == 64):
+		g.declareFun("f64.bits", "((_ FloatingPoint 11 53)) (_ BitVec 64)")
+		b := g.define("bits", bvSort(64), fmt.Sprintf("(f64.bits %s)", v.T))
+		g.assume("true", fmt.Sprintf("(= ((_ to_fp 11 53) %s) %s)", b, v.T))
+		return Val{T: b, S: ts, G: to}
+	case v.S.K == KBV && v.S.W == 64 && ts.K == KF64:
+		g.declareFun("f64.bits", "((_ FloatingPoint 11 53)) (_ BitVec 64)")
+		r := g.define("fb", sF64, fmt.Sprintf("((_ to_fp 11 53) %s)", v.T))
+		g.assume("true", fmt.Sprintf("(= (f64.bits %s) %s)", r, v.T))
+		return Val{T: r, S: sF64, G: to}
+	case v.S.K == ts.K && v.S.W == ts.W:
+		return Val{T: v.T, S: ts, G: to}
+	}
+	g.errorf("unsupported unsafe re-view %s -> %s", v.S.SMT(), ts.SMT())
+	return g.freshVal("rv", to, nil, "true")
 }
